@@ -948,7 +948,7 @@ func init() {
 		},
 		WallPerSeed:  3 * time.Minute,
 		RecycleEvery: 25,
-		Gen:          genC05,
+		Gen:          withSchedKnobs(genC05),
 		Exec:         withSample(genC05, execC05),
 		Shrink:       shrinkC05,
 		DeathSig:     w3DeathSig("C05"),
@@ -990,7 +990,7 @@ func init() {
 		},
 		WallPerSeed:  8 * time.Minute,
 		RecycleEvery: 1,
-		Gen:          genC03,
+		Gen:          withSchedKnobs(genC03),
 		Exec:         withSample(genC03, execC03),
 		Shrink:       shrinkC03,
 		DeathSig:     w3DeathSig("C03"),
